@@ -53,7 +53,64 @@ def stale_gone_exc(ctx, st, exc):
     ctx.oblige("post", "a-request-left-by-an-earlier-call-is-dropped(also when this call fails)", st.data["self_rec"].attrs.get("print_config") is not st.data["stale"])
 
 
+def fresh_request_setup(ctx):
+    """--print_config is read from this call's command line (the action stores the request on the parser); then any callee may end the
+    call: a subcommand's parser or --help exiting (SystemExit from parse_known_args / _parse_common), a failure reported through
+    self.error, or the request being honoured (print and exit 0)."""
+    from contracts.c04 import pa_setup
+    st = pa_setup(ctx, faults=False)
+    rec = st.env["self"]
+    request = {"key": None, "subparser": None}
+    how = ["returns", "a-subparser-exits-2", "help-exits-0", "fails-TypeError"][ctx.choose(4, "parse_known_args")]
+    then = ["prints-and-exits-0", "a-subparser-exits-2", "fails-KeyError", "returns(request skipped)"][ctx.choose(4, "_parse_common")] if how == "returns" else "-"
+    real_known = rec.methods["parse_known_args"]
+
+    def parse_known(c, s_, a, k):
+        s_.attrs["print_config"] = request
+        if how == "a-subparser-exits-2":
+            raise PyRaise(ExcVal("SystemExit", args=(2,), origin="subparser.exit"))
+        if how == "help-exits-0":
+            raise PyRaise(ExcVal("SystemExit", args=(0,), origin="help"))
+        if how == "fails-TypeError":
+            raise PyRaise(ExcVal("TypeError", args=("bad",), origin="parse_known_args"))
+        return real_known(c, s_, a, k)
+
+    def parse_common(c, s_, a, k):
+        if then == "prints-and-exits-0":
+            s_.attrs.pop("print_config", None)  # print_config_if_requested: its own unit (deletes the request first)
+            raise PyRaise(ExcVal("SystemExit", args=(0,), origin="print_config_if_requested"))
+        if then == "a-subparser-exits-2":
+            raise PyRaise(ExcVal("SystemExit", args=(2,), origin="subparser.exit"))
+        if then == "fails-KeyError":
+            raise PyRaise(ExcVal("KeyError", args=("bad",), origin="_parse_common"))
+        return cfg_of_common(k)
+
+    def cfg_of_common(k):
+        from contracts.parse_models import cfg, expr_of
+        return cfg(("common", expr_of(k["cfg"])))
+
+    def error(c, s_, a, k):
+        s_.attrs.pop("print_config", None)  # contract of ArgumentParser.error: the pending request is dropped before it raises / exits
+        if c.choose(2, "error-mode(exit_on_error)") == 0:
+            raise PyRaise(ExcVal("ArgumentError", origin="self.error"))
+        raise PyRaise(ExcVal("SystemExit", args=(2,), origin="self.error"))
+
+    rec.methods.update({"parse_known_args": parse_known, "_parse_common": parse_common, "error": error})
+    st.data.update(self_rec=rec, how=how, then=then, request=request)
+    return st
+
+
+def no_request_left(ctx, st, outcome):
+    d = st.data
+    ctx.oblige("post", f"whatever-ends-the-call,no---print_config-request-stays-on-the-parser-for-another-parse-method-to-act-on[parse_known_args:{d['how']},_parse_common:{d['then']}]",
+               "print_config" not in d["self_rec"].attrs, note=f"exit: {getattr(outcome, 'cls', 'return')}@{getattr(outcome, 'origin', '')}")
+
+
 UNITS = standard_units("C09") + [
+    Unit("C09", "jsonargparse._core:ArgumentParser.parse_args", fresh_request_setup, no_request_left, no_request_left, label="print_config-request-of-this-call", max_paths=2000,
+         expect_cover=("return", "raise:SystemExit", "raise:ArgumentError"),
+         trusted=["ArgumentParser.error drops a pending request before it raises or exits (repair 2d64f91)", "print_config_if_requested deletes the request before it prints (its own unit)",
+                  "a callee may raise SystemExit: a subcommand's parser with exit_on_error=True, --help"]),
     Unit("C09", "jsonargparse._core:ArgumentParser.parse_args", stale_setup, stale_gone, stale_gone_exc, label="stale-print_config-request", max_paths=20000,
          expect_cover=("return", "raise:ArgumentError")),
     Unit("C09", "jsonargparse._actions:_ActionPrintConfig.print_config_if_requested", print_setup, pr_post, pr_raises, label="pending-request", expect_cover=("return", "raise:SystemExit"),
